@@ -117,6 +117,7 @@ func propC13(c *Check) {
 		c.Require(okp && n == 2, "provenance", shortName(f)+"|signer's key and commitment", "the key and commitment used are publics[k] and c.commitments[k] for k == signer", "selection changed")
 	}
 	if f := c.F("(*crypto.CosiSignature).Challenge"); f != nil {
+		c.HashSealedAfterWrites(f, "the challenge binds R, A and the message")
 		writes := findCalls(f, "iface:hash.Hash.Write")
 		hasR, hasA, hasM := false, false, false
 		agg := Extract(0, Call("(*crypto.CosiSignature).aggregatePublicKey", Param("c"), Param("publics")))
@@ -175,6 +176,7 @@ func propC14(c *Check) {
 		c.Require(oks, "provenance", shortName(f)+"|transcript seed", "the transcript starts with the number of signers", "seed changed")
 	}
 	if f := c.F("crypto.aggregateCoefficient"); f != nil {
+		c.HashSealedAfterWrites(f, "a coefficient computed before the signer index and key are absorbed is the same for every signer")
 		writes := findCalls(f, "iface:hash.Hash.Write")
 		d, t, ix, k := false, false, false, false
 		for _, wc := range writes {
@@ -220,6 +222,7 @@ func propC14(c *Check) {
 		c.LoopGate(f, lp, Gate{Name: "private.Public() != *publics[signer] => reject", RejectOnTrue: true,
 			Cond: BinEither(token.NEQ, Call("(crypto.Key).Public", priv), Path(Param("publics"), "[]"))}, "each private key matches the public key at its signer index")
 		// nonce transcript
+		c.HashSealedAfterWrites(f, "the deterministic nonce covers every listed ingredient")
 		writes := findCalls(f, "iface:hash.Hash.Write")
 		want := map[string]VM{"private": Has(priv), "seed": Param("seed"), "transcript": Extract(2, agg), "A": Has(Extract(0, agg)), "message": Has(Param("message")), "domain": Has(ConstStr("mixin-aggregate-nonce-v1"))}
 		got := map[string]bool{}
